@@ -10,7 +10,7 @@
    or not; `aok` says which continuity appends succeed.  The log `l` of a store is ANY interleaving of the
    activities' event lists (`Interleave`: each activity's own order is kept, nothing else is assumed about
    the schedule).  `WfActs` = session / message / job ids are fresh (pairwise distinct). *)
-From RipV Require Import Base.Prelude Model.RunLifecycle Proofs.RunLifecycleProofs.
+From RipV Require Import Base.Prelude Model.RunLifecycle Gen.RunLifecycleGen Proofs.RunLifecycleProofs.
 
 (* A session stream starts with its start frame at seq 0, ends with exactly one end frame, has no other
    start/end frame in between, and its seqs are 0,1,2,… — for every started run (linked or not), under
@@ -103,6 +103,57 @@ Theorem c07_double_input_unfixed_refuted :
     /\ ~ SessionShape (sess_stream sid l).
 Proof. exact double_input_refuted. Qed.
 Print Assumptions c07_double_input_unfixed_refuted.
+
+(* S6 under CONCURRENT inputs.  Any number of callers hold one SessionHandle and call spawn_session with their
+   inputs `inps`; `sched` = the order in which they take their steps (any list of caller numbers; at least one
+   caller takes a step).  `run_guard gk n sched` plays the started-guard of kind `gk`; the session's log is any
+   interleaving of the run_session tasks of the ACCEPTED inputs.  When the guard is one atomic read-modify-write
+   the session stream has the shape of exactly one run — whatever the number of callers and the schedule. *)
+Theorem c07_double_input : forall (gk : guard_kind) (g : cfg) (sid : N) (inps : list input) (a : nat) (sched : list nat) (l : list ev),
+  guard_atomic gk = true -> (a < length inps)%nat ->
+  Interleave (map (run_session g sid None all_ok)
+                  (accepted_inputs (snd (run_guard gk (length inps) (a :: sched))) inps)) l ->
+  SessionShape (sess_stream sid l).
+Proof. exact double_input_guarded. Qed.
+Print Assumptions c07_double_input.
+
+(* … instantiated at the guard kind the extractor reads from runner.rs on every run (obligation gen_guard_atomic) *)
+Theorem c07_double_input_as_built : forall (g : cfg) (sid : N) (inps : list input) (a : nat) (sched : list nat) (l : list ev),
+  (a < length inps)%nat ->
+  Interleave (map (run_session g sid None all_ok)
+                  (accepted_inputs (snd (run_guard gen_guard (length inps) (a :: sched))) inps)) l ->
+  SessionShape (sess_stream sid l).
+Proof. exact (fun g sid inps a sched l => double_input_guarded gen_guard g sid inps a sched l gen_guard_atomic). Qed.
+Print Assumptions c07_double_input_as_built.
+
+(* exactly one of the concurrent inputs is accepted (the count, not only the shape) *)
+Theorem c07_one_input_accepted : forall (gk : guard_kind) (n a : nat) (sched : list nat),
+  guard_atomic gk = true -> (a < n)%nat ->
+  nacc (snd (run_guard gk n (a :: sched))) = 1%nat.
+Proof. exact guard_one_accepted. Qed.
+Print Assumptions c07_one_input_accepted.
+
+(* a check-then-set guard (`load` … spawn … `store(true)`) is NOT enough: two callers, schedule
+   load, load, spawn+store, spawn+store — both inputs are accepted, two runs write one session stream *)
+Theorem c07_double_input_check_then_set_refuted :
+  exists g sid (inps : list input) sched l,
+    Forall (fun a => (a < length inps)%nat) sched /\ sched <> []
+    /\ Interleave (map (run_session g sid None all_ok)
+                       (accepted_inputs (snd (run_guard GCheckThenSet (length inps) sched)) inps)) l
+    /\ ~ SessionShape (sess_stream sid l).
+Proof. exact double_input_check_then_set_refuted. Qed.
+Print Assumptions c07_double_input_check_then_set_refuted.
+
+(* the schedule the harness forces through the hook point session.spawn.guarded (every caller up to the point,
+   then all released): one accepted input for an atomic guard and any number n >= 1 of callers *)
+Theorem c07_stepped_race_accepts_one : forall n : N, 0 < n -> race_accepted GAtomicRmw n = 1.
+Proof. exact race_accepted_atomic. Qed.
+Print Assumptions c07_stepped_race_accepts_one.
+
+(* the cut of a text is a total function that yields a prefix made of whole characters' bytes *)
+Theorem c07_cut_is_prefix : forall (n : N) (l : list N), exists rest, l = cut_floor n l ++ rest.
+Proof. exact cut_floor_prefix. Qed.
+Print Assumptions c07_cut_is_prefix.
 
 (* non-vacuity: four activities (a provider run with a tool round, a tool-envelope run that times out, an
    unlinked run whose provider stream breaks, a job), really interleaved; the hypotheses hold and the run's
